@@ -141,7 +141,7 @@ def _structure(v):
     return pos, a.n, p, b.n
 
 
-def _guard(ck, prog, f, construct, tag):
+def _guard(ck, prog, f, construct, tag, wparam=None):
     """MUST: the window guard executes before any use of the window size; DT: it raises iff N < w"""
     ev = Evaluator(prog, positive=("N", "w"))
     g = prog.fn(SEQ, "Sequence.__check_window_to_length")
@@ -151,7 +151,7 @@ def _guard(ck, prog, f, construct, tag):
     ck.ob("DT-guard", SEQ_PATH + ":Sequence.__check_window_to_length", mis is None,
           expected="raises iff len(seq) < window", found=mis or "equivalent", slot="guard-table", where=g.loc())
     # first statement that mentions the window parameter must be the guard call
-    wparam = f.params()[1]
+    wparam = wparam or f.params()[1]
     first = None
     for s in f.body():
         if any(isinstance(n, ast.Name) and n.id == wparam for n in ast.walk(s)):
